@@ -82,3 +82,17 @@ mod tests {
         assert_eq!(text, expected_str);
     }
 }
+
+#[cfg(funbiscuit_embedded_cli_rs_verif)]
+impl Utf8Accum {
+    pub fn __verif_from_parts(buffer: [u8; 4], expected: u8, partial: u8) -> Self {
+        Self {
+            buffer,
+            expected,
+            partial,
+        }
+    }
+    pub fn __verif_parts(&self) -> ([u8; 4], u8, u8) {
+        (self.buffer, self.expected, self.partial)
+    }
+}
